@@ -1,0 +1,150 @@
+//go:build verif
+
+package core
+
+// Contracts for package core, checked by /verif/govc (contract-based deductive
+// verification). This file contains comments only; it is compiled only under
+// the build tag "verif" and adds no code.
+
+//@ smt (declare-fun matchSpec (Str Str Str Int Int Int (Array Int (Array Str Bool)) (Array Int (Array Str Int))) Bool)
+
+// ---- representation invariants -------------------------------------------------
+
+//@ pred TInv0(t *Table) :=
+//@   t != nil && t.Data != nil && allocated(t.Data) &&
+//@   sorted(t.SortedKeys) && bag(t.SortedKeys) == ind(dom(t.Data)) && allocated(t.SortedKeys) &&
+//@   (forall k string :: {t.Data[k]} k in t.Data ==> t.Data[k] != nil && allocated(t.Data[k])) &&
+//@   (forall k1 string, k2 string :: {t.Data[k1], t.Data[k2]} k1 in t.Data && k2 in t.Data && k1 != k2 ==> t.Data[k1] != t.Data[k2])
+
+//@ pred IOwn(t *Table) :=
+//@   t.Indexes != nil && allocated(t.Indexes) &&
+//@   (forall n string :: {t.Indexes[n]} n in t.Indexes ==>
+//@       t.Indexes[n] != nil && allocated(t.Indexes[n]) && t.Indexes[n].Table == t &&
+//@       t.Indexes[n].refs != nil && allocated(t.Indexes[n].refs) && allocated(t.Indexes[n].sortedKeys) &&
+//@       arr(t.Indexes[n].sortedKeys) != arr(t.SortedKeys)) &&
+//@   (forall n1 string, n2 string :: {t.Indexes[n1], t.Indexes[n2]} n1 in t.Indexes && n2 in t.Indexes && n1 != n2 ==>
+//@       t.Indexes[n1] != t.Indexes[n2] && t.Indexes[n1].refs != t.Indexes[n2].refs &&
+//@       arr(t.Indexes[n1].sortedKeys) != arr(t.Indexes[n2].sortedKeys))
+
+// ---- helpers -------------------------------------------------------------------
+
+//@ func copyItem
+//@   ensures fresh(result) && result != nil
+//@   ensures content(result) == content(item)
+//@   loop 1:
+//@     invariant dom(copy) == visited
+//@     invariant forall k string :: {copy[k]} k in visited ==> copy[k] == item[k]
+
+//@ func (*Table).getItem
+//@   ensures key in t.Data ==> result == t.Data[key]
+//@   ensures !(key in t.Data) ==> fresh(result) && len(result) == 0
+
+//@ func (*Table).setItem
+//@   requires TInv0(t) && item != nil && allocated(item)
+//@   requires forall k string :: {t.Data[k]} k in t.Data && k != key ==> t.Data[k] != item
+//@   modifies t.SortedKeys, t.Data[*], t.SortedKeys[*]
+//@   ensures TInv0(t)
+//@   ensures arr(t.SortedKeys) == old(arr(t.SortedKeys)) || fresh(arr(t.SortedKeys))
+//@   ensures[C01] dom(t.Data) == with(old(dom(t.Data)), key) && t.Data[key] == item
+//@   ensures[C01] forall k string :: {t.Data[k]} k != key ==> t.Data[k] == old(t.Data[k])
+
+//@ func keySchema.GetKey
+//@   pure
+
+//@ smt (declare-fun updSpecDom (Str Str (Array Str Bool) (Array Str Int) Int Int) (Array Str Bool))
+//@ smt (declare-fun updSpecVal (Str Str (Array Str Bool) (Array Str Int) Int Int) (Array Str Int))
+
+// updSpec depends on the attribute values only inside the item's domain (skolemised congruence)
+//@ smt (declare-fun updDiff ((Array Str Bool) (Array Str Int) (Array Str Int)) Str)
+//@ smt (assert (forall ((n Str) (e Str) (d (Array Str Bool)) (v1 (Array Str Int)) (v2 (Array Str Int)) (a Int) (al Int)) (! (or (= (updSpecDom n e d v1 a al) (updSpecDom n e d v2 a al)) (and (select d (updDiff d v1 v2)) (not (= (select v1 (updDiff d v1 v2)) (select v2 (updDiff d v1 v2)))))) :pattern ((updSpecDom n e d v1 a al) (updSpecDom n e d v2 a al)))))
+//@ smt (assert (forall ((n Str) (e Str) (d (Array Str Bool)) (v1 (Array Str Int)) (v2 (Array Str Int)) (a Int) (al Int)) (! (or (= (updSpecVal n e d v1 a al) (updSpecVal n e d v2 a al)) (and (select d (updDiff d v1 v2)) (not (= (select v1 (updDiff d v1 v2)) (select v2 (updDiff d v1 v2)))))) :pattern ((updSpecVal n e d v1 a al) (updSpecVal n e d v2 a al)))))
+
+//@ func (*Table).interpreterUpdate
+//@   assumed
+//@   requires input.Item != nil
+//@   modifies input.Item[*]
+//@   ensures result != nil ==> content(input.Item) == old(content(input.Item))
+//@   ensures result == nil ==> dom(input.Item) == updSpecDom(input.TableName, input.Expression, old(dom(input.Item)), old(vals(input.Item)), input.Attributes, input.Aliases)
+//@   ensures result == nil ==> content(input.Item) == contentOf(updSpecDom(input.TableName, input.Expression, old(dom(input.Item)), old(vals(input.Item)), input.Attributes, input.Aliases), updSpecVal(input.TableName, input.Expression, old(dom(input.Item)), old(vals(input.Item)), input.Attributes, input.Aliases))
+
+//@ func (*Table).interpreterMatch
+//@   assumed
+//@   maypanic
+//@   ensures result == matchSpec(t.Name, input.Expression, input.ExpressionType, input.Item, input.Attributes, input.Aliases, domHeap(input.Item), valHeap(input.Item))
+
+// ---- secondary index maintenance (frame level) -----------------------------------
+
+//@ func (*index).putData
+//@   requires i != nil && i.refs != nil && allocated(i.refs) && allocated(i.sortedKeys) && i.Table != nil
+//@   modifies i.refs[*], i.sortedKeys, i.sortedKeys[*]
+//@   ensures arr(i.sortedKeys) == old(arr(i.sortedKeys)) || fresh(arr(i.sortedKeys))
+//@   ensures allocated(i.sortedKeys)
+
+//@ func (*index).updateData
+//@   requires i != nil && i.refs != nil && allocated(i.refs) && allocated(i.sortedKeys) && i.Table != nil
+//@   modifies i.refs[*], i.sortedKeys, i.sortedKeys[*]
+//@   ensures arr(i.sortedKeys) == old(arr(i.sortedKeys)) || fresh(arr(i.sortedKeys))
+//@   ensures allocated(i.sortedKeys)
+
+//@ func (*index).delete
+//@   requires i != nil && i.refs != nil && allocated(i.refs) && allocated(i.sortedKeys) && i.Table != nil
+//@   modifies i.refs[*], i.sortedKeys, i.sortedKeys[*]
+//@   ensures arr(i.sortedKeys) == old(arr(i.sortedKeys)) || fresh(arr(i.sortedKeys))
+//@   ensures allocated(i.sortedKeys)
+
+// ---- single-item operations -------------------------------------------------------
+
+//@ func (*Table).Put
+//@   requires TInv0(t) && IOwn(t) && input != nil && allocated(input) && allocated(input.Item)
+//@   modifies t.SortedKeys, t.Data[*], t.SortedKeys[*],
+//@            forall n string :: n in t.Indexes ==> t.Indexes[n].refs[*],
+//@            forall n string :: n in t.Indexes ==> t.Indexes[n].sortedKeys,
+//@            forall n string :: n in t.Indexes ==> t.Indexes[n].sortedKeys[*]
+//@   ensures TInv0(t) && IOwn(t)
+//@   ensures[C01] result1 == nil ==> dom(t.Data) == with(old(dom(t.Data)), nth(old(t.KeySchema.GetKey(t.AttributesDef, input.Item)), 0))
+//@   ensures[C01] result1 == nil ==> fresh(t.Data[nth(old(t.KeySchema.GetKey(t.AttributesDef, input.Item)), 0)]) &&
+//@                content(t.Data[nth(old(t.KeySchema.GetKey(t.AttributesDef, input.Item)), 0)]) == old(content(input.Item))
+//@   ensures[C01] forall k string :: {t.Data[k]} k != nth(old(t.KeySchema.GetKey(t.AttributesDef, input.Item)), 0) ==> t.Data[k] == old(t.Data[k])
+//@   loop 1:
+//@     invariant TInv0(t) && IOwn(t)
+//@     invariant forall n string :: {t.Indexes[n]} n in t.Indexes ==> arr(t.Indexes[n].sortedKeys) == old(arr(t.Indexes[n].sortedKeys)) || fresh(arr(t.Indexes[n].sortedKeys))
+
+//@ func (*Table).Delete
+//@   requires TInv0(t) && IOwn(t) && input != nil && allocated(input) && allocated(input.Key)
+//@   modifies t.SortedKeys, t.Data[*], t.SortedKeys[*],
+//@            forall n string :: n in t.Indexes ==> t.Indexes[n].refs[*],
+//@            forall n string :: n in t.Indexes ==> t.Indexes[n].sortedKeys,
+//@            forall n string :: n in t.Indexes ==> t.Indexes[n].sortedKeys[*]
+//@   ensures TInv0(t) && IOwn(t)
+//@   ensures[C01] result1 == nil && !(nth(old(t.KeySchema.GetKey(t.AttributesDef, input.Key)), 0) in old(dom(t.Data))) ==>
+//@                dom(t.Data) == old(dom(t.Data)) && len(result0) == 0
+//@   ensures[C01] result1 == nil && nth(old(t.KeySchema.GetKey(t.AttributesDef, input.Key)), 0) in old(dom(t.Data)) ==>
+//@                dom(t.Data) == without(old(dom(t.Data)), nth(old(t.KeySchema.GetKey(t.AttributesDef, input.Key)), 0)) &&
+//@                fresh(result0) && content(result0) == old(content(t.Data[nth(t.KeySchema.GetKey(t.AttributesDef, input.Key), 0)]))
+//@   ensures[C01] forall k string :: {t.Data[k]} k != nth(old(t.KeySchema.GetKey(t.AttributesDef, input.Key)), 0) ==> t.Data[k] == old(t.Data[k])
+//@   loop 1:
+//@     invariant TInv0(t) && IOwn(t)
+//@     invariant forall n string :: {t.Indexes[n]} n in t.Indexes ==> arr(t.Indexes[n].sortedKeys) == old(arr(t.Indexes[n].sortedKeys)) || fresh(arr(t.Indexes[n].sortedKeys))
+
+//@ func (*Table).Update
+//@   requires TInv0(t) && IOwn(t) && input != nil && allocated(input) && allocated(input.Key)
+//@   modifies t.SortedKeys, t.Data[*], t.SortedKeys[*], t.Data[nth(t.KeySchema.GetKey(t.AttributesDef, input.Key), 0)][*],
+//@            forall n string :: n in t.Indexes ==> t.Indexes[n].refs[*],
+//@            forall n string :: n in t.Indexes ==> t.Indexes[n].sortedKeys,
+//@            forall n string :: n in t.Indexes ==> t.Indexes[n].sortedKeys[*]
+//@   ensures TInv0(t) && IOwn(t)
+//@   ensures[C01] result1 == nil ==> dom(t.Data) == with(old(dom(t.Data)), nth(old(t.KeySchema.GetKey(t.AttributesDef, input.Key)), 0))
+//@   ensures[C01] result1 == nil && nth(old(t.KeySchema.GetKey(t.AttributesDef, input.Key)), 0) in old(dom(t.Data)) ==>
+//@                t.Data[nth(old(t.KeySchema.GetKey(t.AttributesDef, input.Key)), 0)] == old(t.Data[nth(t.KeySchema.GetKey(t.AttributesDef, input.Key), 0)]) &&
+//@                dom(t.Data[nth(old(t.KeySchema.GetKey(t.AttributesDef, input.Key)), 0)]) ==
+//@                  updSpecDom(t.Name, input.UpdateExpression, old(dom(t.Data[nth(t.KeySchema.GetKey(t.AttributesDef, input.Key), 0)])), old(vals(t.Data[nth(t.KeySchema.GetKey(t.AttributesDef, input.Key), 0)])), input.ExpressionAttributeValues, input.ExpressionAttributeNames)
+//@   ensures[C01] result1 == nil && !(nth(old(t.KeySchema.GetKey(t.AttributesDef, input.Key)), 0) in old(dom(t.Data))) ==>
+//@                fresh(t.Data[nth(old(t.KeySchema.GetKey(t.AttributesDef, input.Key)), 0)]) &&
+//@                dom(t.Data[nth(old(t.KeySchema.GetKey(t.AttributesDef, input.Key)), 0)]) ==
+//@                  updSpecDom(t.Name, input.UpdateExpression, old(dom(input.Key)), old(vals(input.Key)), input.ExpressionAttributeValues, input.ExpressionAttributeNames)
+//@   ensures[C01] result1 == nil ==> fresh(result0) && content(result0) == content(t.Data[nth(old(t.KeySchema.GetKey(t.AttributesDef, input.Key)), 0)])
+//@   ensures[C01] forall k string :: {t.Data[k]} k != nth(old(t.KeySchema.GetKey(t.AttributesDef, input.Key)), 0) ==> t.Data[k] == old(t.Data[k])
+//@   loop 1:
+//@     invariant TInv0(t) && IOwn(t)
+//@     invariant forall n string :: {t.Indexes[n]} n in t.Indexes ==> arr(t.Indexes[n].sortedKeys) == old(arr(t.Indexes[n].sortedKeys)) || fresh(arr(t.Indexes[n].sortedKeys))
+//@     invariant nth(old(t.KeySchema.GetKey(t.AttributesDef, input.Key)), 0) in t.Data && content(item) == content(t.Data[nth(old(t.KeySchema.GetKey(t.AttributesDef, input.Key)), 0)])
